@@ -97,6 +97,6 @@ def queries(tier):
     return qs
 
 MANIFEST = {
-    "text": "Bounded symbolic check of the real tcp.c / sockfd.c / ipc.c framing (for a transfer of ANY size the next request is exactly the remaining suffix; ANY 64-bit length vs ANY RECVMAXSZ; delivery once with exactly the bytes carried; handshake accepted iff well-formed; all segmentations by induction on the number of transfers), of the real inproc.c hand-off (k-th receive gets the k-th accepted message, header||body unaltered, cancel/close/failed private copy), of the real http_conn.c byte stream under every segmentation of a short stream (what websocket frames are read and written through) and of the websocket fragment writer / reassembly incl. a receiver that arrives in the middle of a fragmented message. Platform stream code (tcp/ipc/sockfd dowrite/doread: the kernel is handed exactly the non-empty buffers in order; any transfer count, EAGAIN, EINTR, error, EOF), cancellation of in-progress / queued transfers in the stream transports, and the SP websocket transport's pipe operations (a message is sent, returned to the caller or released exactly once). Also nni_msg_pull_up of a shared message (inproc fan-out: every receiver gets a message of its own).",
+    "text": "Bounded symbolic check of the real tcp.c / sockfd.c / ipc.c framing (for a transfer of ANY size the next request is exactly the remaining suffix; ANY 64-bit length vs ANY RECVMAXSZ; delivery once with exactly the bytes carried; handshake accepted iff well-formed; all segmentations by induction on the number of transfers), of the real inproc.c hand-off (k-th receive gets the k-th accepted message, header||body unaltered, cancel/close/failed private copy), of the real http_conn.c byte stream under every segmentation of a short stream (what websocket frames are read and written through) and of the websocket fragment writer / reassembly incl. a receiver that arrives in the middle of a fragmented message. Platform stream code (tcp/ipc/sockfd dowrite/doread: the kernel is handed exactly the non-empty buffers in order; any transfer count, EAGAIN, EINTR, error, EOF), cancellation of in-progress / queued transfers in the stream transports, and the SP websocket transport's pipe operations (a message is sent, returned to the caller or released exactly once). Also nni_msg_pull_up of a shared message (inproc fan-out: every receiver gets a message of its own). Stream transports: a message cut short in the middle is never delivered.",
     "note": "Accepted payload lengths <= 8 in the header-complete step; iov arithmetic of the aio model is checked equivalent to the real nni_aio_iov_advance; kernel I/O stubbed; http_conn streams of 12-14 bytes in <= 3-4 segments with position models of the head parsers; the kernel itself is a stub (any transfer count / EAGAIN / EINTR / error / EOF).",
 }
